@@ -344,6 +344,11 @@ impl Metadata {
     }
 
     pub fn add_generated_file(&mut self, path: PathBuf) {
+        #[cfg(all(feature = "verif", not(target_family = "wasm")))]
+        if let Some(now) = veryl_path::sim::now() {
+            self.build_info.generated_files.insert(path.clone(), now);
+            return;
+        }
         self.build_info
             .generated_files
             .insert(path, SystemTime::now());
@@ -501,6 +506,9 @@ impl Metadata {
             let mut deps = self.lockfile.paths(&base_dst)?;
             ret.append(&mut deps);
         }
+
+        #[cfg(all(feature = "verif", not(target_family = "wasm")))]
+        veryl_path::sim::permute("paths", &mut ret);
 
         Ok(ret)
     }
